@@ -10,6 +10,9 @@ UNITS = {
     "ppo": {"template": "units/ppo.vt", "packages": ["ppoprf"],
             "externs": {"strobe_rs": "strobe_rs", "curve25519_dalek": "curve25519_dalek", "rand": "rand",
                         "rand_core": "rand_core", "serde": "serde", "bincode": "bincode", "zeroize": "zeroize"}},
+    # Montgomery multiplication of the share field, on the macro-expanded text of star-sharks
+    "ff": {"template": "units/ff.vt", "packages": ["star-sharks"], "externs": {"ff": "ff"},
+           "expand": [("star-sharks", "_expanded/star_sharks.rs")]},
     "canary": {"template": "units/canary.vt", "packages": [], "externs": {}},
 }
 
@@ -105,6 +108,10 @@ def verify_unit_once(unit, repo_copy, workdir, extra=None, demote=None):
     if U["packages"]:
         arts, deps, bt = runner.build_deps(repo_copy, U["packages"])
         R.times["cargo_build_s"] = round(bt, 2)
+    for pkg, rel in U.get("expand", []):
+        t0 = time.time()
+        runner.expand_crate(repo_copy, pkg, rel)
+        R.times["macro_expansion_s"] = round(time.time() - t0, 2)
     E = emit.Emitter(repo_copy, VERIF, demote=demote)
     text = E.process(U["template"])       # may raise EmitError
     R.emitter = E
@@ -565,6 +572,9 @@ def setup():
     sdir, repo_copy = runner.make_scratch("setup")
     arts, deps, t = runner.build_deps(repo_copy, ["adss", "sta-rs", "ppoprf"])
     print("dependency cache built in %.1fs (%d artifacts)" % (t, len(arts)))
+    t0 = time.time()
+    runner.expand_crate(repo_copy, "star-sharks", "_expanded/star_sharks.rs")
+    print("macro expansion cache built in %.1fs" % (time.time() - t0))
     return 0
 
 def main(argv):
